@@ -1,5 +1,6 @@
 import MJ.Proofs.SliceFwd
 import MJ.Proofs.PySliceSpec
+import MJ.Proofs.SubGlue
 /-!
 # C09 — subscripts and slices follow Python's rules for every bound and step
 
@@ -171,6 +172,560 @@ theorem spec_neg (len : Nat) (start stop : Option Int) (k : Nat) (hk : 0 < k) (i
       PySlice.clampNeg len stop (-1) < (i : Int) ∧ (i : Int) ≤ PySlice.clampNeg len start ((len : Int) - 1) ∧
       (PySlice.clampNeg len start ((len : Int) - 1) - (i : Int)) % (k : Int) = 0 :=
   PySlice.mem_indices_neg len start stop k hk i
+
+/-! # Values: the glue around the arithmetic (`MJ.Sub`, model of `ops::slice`, `get_item_opt`, VM arms)
+
+Bounds and subscripts arrive as template *values*; containers come in many representations.
+`pyView` maps a value to the Python sequence it stands for (`str`, `bytes`, `tuple`, list),
+`pyBound`/`pyInt` say which values Python accepts as slice parts / indexes (integers of every
+representation and size, booleans, `none` for an omitted part). -/
+section Values
+open MJ.Sub
+set_option linter.unusedSimpArgs false
+
+
+theorem sliceUnsizedG_eq {α : Type} (xs : List α) (A B : Option Int) (st : Int)
+    (hA : OptInI64 A) (hB : OptInI64 B) (hst : InI64 st) (h0 : st ≠ 0) (hl : xs.length < 9223372036854775808) :
+    ∃ sized, sliceUnsizedG xs A B st = .ok (.ok (.iter sized (pick xs (PySlice.indices xs.length A B st)))) := by
+  have hne : (some st : Option Int) ≠ some 0 := by simpa using h0
+  have hS := slice_eq_python α xs A B (some st) hA hB hst hl
+  rw [if_neg hne] at hS
+  have hU := sliceUnsized_eq_slice xs A B (some st) hA hB hst hl
+  rw [hS] at hU
+  unfold sliceUnsizedG
+  by_cases hc : st > 0 ∧ (isNeg A || isNeg B) = false
+  · rw [if_pos hc]
+    unfold sliceUnsized at hU
+    rw [if_pos (by simpa using hc)] at hU
+    rw [unsizedLen_eq]
+    cases ho : offsetLen A B 18446744073709551615 with
+    | panic => rw [ho] at hU; cases hU
+    | ok p =>
+      obtain ⟨off, n⟩ := p
+      rw [ho] at hU
+      simp only [Option.getD_some] at hU
+      injection hU with hU
+      injection hU with hU
+      exact ⟨decide (n = 0), by simp only []; rw [hU]⟩
+  · rw [if_neg hc, hS]
+    exact ⟨true, rfl⟩
+
+theorem slice_list_ok {α : Type} (xs : List α) (A B : Option Int) (st : Int)
+    (hA : OptInI64 A) (hB : OptInI64 B) (hst : InI64 st) (h0 : st ≠ 0) (hl : xs.length < 9223372036854775808) :
+    slice xs A B (some st) = .ok (.ok (pick xs (PySlice.indices xs.length A B st))) := by
+  have hne : (some st : Option Int) ≠ some 0 := by simpa using h0
+  have hS := slice_eq_python α xs A B (some st) hA hB hst hl
+  rw [if_neg hne] at hS
+  exact hS
+
+/-- `ops::slice` once the three parts are converted: a zero step is the error, everything else
+    is Python's selection on the converted bounds, of the same type -/
+theorem sliceV_of_bounds {α : Type} (v a b c : Val α) (s : PySeq α) (A B C : Option Int)
+    (hv : pyView v = some s) (ha : optBound a = .ok A) (hb : optBound b = .ok B) (hc : optBound c = .ok C)
+    (hl : s.len < 9223372036854775808) :
+    if C.getD 1 = 0 then sliceV v a b c = .ok (.error zeroStepErr)
+    else ∃ r, sliceV v a b c = .ok (.ok r) ∧ pyView r = some (s.slice A B (C.getD 1)) := by
+  have hA := optBound_range a A ha
+  have hB := optBound_range b B hb
+  have hst := getD_range C (optBound_range c C hc)
+  unfold sliceV
+  simp only [ha, hb, hc]
+  by_cases h0 : C.getD 1 = 0
+  · simp only [h0, if_true]
+  · simp only [h0, if_false]
+    generalize C.getD 1 = st at h0 hst
+    cases v with
+    | str r bs =>
+      simp only [pyView, Option.some.injEq] at hv; subst hv
+      simp only [sliceClass_str, PySeq.len] at hl ⊢
+      rw [slice_list_ok _ A B st hA hB hst h0 hl]
+      simp only [wrapRes, String.reduceEq, if_false, if_true]
+      refine ⟨_, rfl, ?_⟩
+      simp only [pyView, chars_encode, PySeq.slice, PySeq.pick, PySeq.len]
+    | bytes bs =>
+      simp only [pyView, Option.some.injEq] at hv; subst hv
+      simp only [sliceClass_bytes, PySeq.len] at hl ⊢
+      rw [slice_list_ok _ A B st hA hB hst h0 hl]
+      simp only [wrapRes, String.reduceEq, if_false, if_true]
+      refine ⟨_, rfl, ?_⟩
+      simp only [pyView, PySeq.slice, PySeq.pick, PySeq.len]
+    | tuple xs =>
+      simp only [pyView, Option.some.injEq] at hv; subst hv
+      simp only [sliceClass_tuple, PySeq.len] at hl ⊢
+      rw [slice_list_ok _ A B st hA hB hst h0 hl]
+      simp only [wrapRes, String.reduceEq, if_false, if_true]
+      refine ⟨_, rfl, ?_⟩
+      simp only [pyView, PySeq.slice, PySeq.pick, PySeq.len]
+    | seq xs =>
+      simp only [pyView, Option.some.injEq] at hv; subst hv
+      simp only [sliceClass_seq, PySeq.len] at hl ⊢
+      rw [slice_list_ok _ A B st hA hB hst h0 hl]
+      simp only [wrapRes, String.reduceEq, if_false, if_true]
+      refine ⟨_, rfl, ?_⟩
+      simp only [pyView, PySeq.slice, PySeq.pick, PySeq.len]
+    | iter sized xs =>
+      simp only [pyView, Option.some.injEq] at hv; subst hv
+      simp only [sliceClass_iter, PySeq.len] at hl ⊢
+      cases sized with
+      | true =>
+        simp only [String.reduceEq, if_false]
+        rw [slice_list_ok _ A B st hA hB hst h0 hl]
+        simp only [wrapRes, String.reduceEq, if_false, if_true]
+        refine ⟨_, rfl, ?_⟩
+        simp only [pyView, PySeq.slice, PySeq.pick, PySeq.len]
+      | false =>
+        obtain ⟨sz, h⟩ := sliceUnsizedG_eq xs A B st hA hB hst h0 hl
+        simp only [String.reduceEq, if_false, if_true, h]
+        refine ⟨_, rfl, ?_⟩
+        simp only [pyView, PySeq.slice, PySeq.pick, PySeq.len]
+    | once xs =>
+      simp only [pyView, Option.some.injEq] at hv; subst hv
+      simp only [sliceClass_once, PySeq.len] at hl ⊢
+      obtain ⟨sz, h⟩ := sliceUnsizedG_eq xs A B st hA hB hst h0 hl
+      simp only [String.reduceEq, if_false, if_true, h]
+      refine ⟨_, rfl, ?_⟩
+      simp only [pyView, PySeq.slice, PySeq.pick, PySeq.len]
+    | _ => simp [pyView] at hv
+
+/-! ### the full statement for values -/
+
+/-- Full-strength statement at the level of template values: for every value Python has a
+    sequence type for (strings in all three representations, bytes, tuples, sequences, sized and
+    unsized iterables, one-shot iterators) and all slice parts that are omitted or Python integers —
+    of *any* representation (`bool`, `i64`, `u64`, `i128`, `u128`) and *any* size — `ops::slice`
+    returns Python's selection, of the same type; a zero step is the only error; no panic. -/
+def C09_values_full : Prop :=
+  ∀ (α : Type) (v a b c : Val α) (s : PySeq α) (A B C : Option Int),
+    pyView v = some s → pyBound a = some A → pyBound b = some B → pyBound c = some C →
+    a.WF → b.WF → c.WF → s.len < 9223372036854775808 →
+    if C = some 0 then sliceV v a b c = .ok (.error zeroStepErr)
+    else ∃ r, sliceV v a b c = .ok (.ok r) ∧ pyView r = some (s.slice A B (C.getD 1))
+
+theorem sliceV_eq_python : C09_values_full := by
+  intro α v a b c s A B C hv ha hb hc wa wb wc hl
+  have h := sliceV_of_bounds v a b c s _ _ _ hv (optBound_pyBound a A ha wa) (optBound_pyBound b B hb wb)
+    (optBound_pyBound c C hc wc) hl
+  have hstep : (C.map clampI64).getD 1 = clampI64 (C.getD 1) := by
+    cases C with
+    | none => simp [clampI64, i64Min, i64Max]
+    | some x => rfl
+  rw [hstep] at h
+  by_cases h0 : C = some 0
+  · subst h0
+    simpa [clampI64, i64Min, i64Max] using h
+  · have hne : C.getD 1 ≠ 0 := by
+      cases C with
+      | none => simp
+      | some x => simpa using h0
+    rw [if_neg h0]
+    rw [if_neg (by rw [clampI64_zero_iff]; exact hne)] at h
+    obtain ⟨r, h1, h2⟩ := h
+    refine ⟨r, h1, ?_⟩
+    rw [h2]
+    simp only [PySeq.slice]
+    rw [indices_clamp s.len A B (C.getD 1) hl hne]
+
+/-- integral floats are accepted where Python wants integers (engine rule): they act as the integer -/
+theorem sliceBound_float {α : Type} (bits : Nat) :
+    sliceBound (Val.num (.f64 bits) : Val α) =
+      match f64ToI64 bits with
+      | some x => .ok x
+      | Option.none => .error (convErr (Val.num (.f64 bits) : Val α)) := by
+  have harm : MJ.Gen.c09IntTryFromArms.contains "F64" = true := by decide
+  have hrow : clampRow (Val.num (.f64 bits) : Val α) MJ.Gen.c09SliceBoundClamp = Option.none := rfl
+  unfold sliceBound
+  rw [hrow]
+  simp only [valI64, tryInt, Val.repr, harm, if_true, Val.payload]
+  cases h : f64ToI64 bits with
+  | none => rfl
+  | some x =>
+    have hr : i64Min ≤ x ∧ x ≤ i64Max := f64ToI64_range bits x h
+    simp only [hr, and_self, if_true]
+
+/-- everything that is neither `none` nor a number/boolean is a conversion error -/
+theorem sliceBound_not_number {α : Type} (v : Val α) (h : MJ.Gen.c09IntTryFromArms.contains v.repr = false) :
+    sliceBound v = .error (convErr v) := by
+  have hrow : clampRow v MJ.Gen.c09SliceBoundClamp = Option.none := by
+    simp only [clampRow, MJ.Gen.c09SliceBoundClamp]
+    have h1 : ¬ "U64" = v.repr := by intro e; rw [← e] at h; revert h; decide
+    have h2 : ¬ "U128" = v.repr := by intro e; rw [← e] at h; revert h; decide
+    have h3 : ¬ "I128" = v.repr := by intro e; rw [← e] at h; revert h; decide
+    simp only [h1, h2, h3, if_false]
+  unfold sliceBound
+  rw [hrow]
+  simp only [valI64, tryInt, h]
+  rfl
+
+/-- `ops::slice` is total: it reports `sliceErr?` if that is an error and succeeds otherwise;
+    in no case does it panic — whatever the four values are -/
+theorem sliceV_total {α : Type} (v a b c : Val α)
+    (hl : ∀ s, pyView v = some s → s.len < 9223372036854775808) :
+    match sliceErr? v a b c with
+    | some e => sliceV v a b c = .ok (.error e)
+    | Option.none => ∃ r, sliceV v a b c = .ok (.ok r) := by
+  unfold sliceErr?
+  cases ha : optBound a with
+  | error e => simp only [sliceV, ha]
+  | ok A =>
+  cases hb : optBound b with
+  | error e => simp only [sliceV, ha, hb]
+  | ok B =>
+  cases hc : optBound c with
+  | error e => simp only [sliceV, ha, hb, hc]
+  | ok C =>
+  simp only []
+  by_cases h0 : C.getD 1 = 0
+  · simp only [h0, if_true, sliceV, ha, hb, hc]
+  · simp only [h0, if_false]
+    cases hv : pyView v with
+    | some s =>
+      have hcls : sliceClass v ≠ "error" := by
+        cases v <;> simp [pyView] at hv <;>
+          simp [sliceClass_str, sliceClass_bytes, sliceClass_tuple, sliceClass_seq, sliceClass_iter, sliceClass_once]
+      rw [if_neg hcls]
+      have h := sliceV_of_bounds v a b c s A B C hv ha hb hc (hl s hv)
+      rw [if_neg h0] at h
+      obtain ⟨r, h1, _⟩ := h
+      exact ⟨r, h1⟩
+    | none =>
+      cases v with
+      | undef => simp [sliceClass_undef, sliceV, ha, hb, hc, h0]
+      | none => simp [sliceClass_none, sliceV, ha, hb, hc, h0]
+      | bool x => simp [sliceClass_bool, sliceV, ha, hb, hc, h0]
+      | num n => simp [sliceClass_num, sliceV, ha, hb, hc, h0]
+      | map kvs => simp [sliceClass_map, sliceV, ha, hb, hc, h0]
+      | plain => simp [sliceClass_plain, sliceV, ha, hb, hc, h0]
+      | invalid => simp [sliceClass_invalid, sliceV, ha, hb, hc, h0]
+      | _ => simp [pyView] at hv
+
+theorem sliceV_no_panic {α : Type} (v a b c : Val α)
+    (hl : ∀ s, pyView v = some s → s.len < 9223372036854775808) : sliceV v a b c ≠ .panic := by
+  have h := sliceV_total v a b c hl
+  cases he : sliceErr? v a b c with
+  | some e => rw [he] at h; simp only [] at h; rw [h]; intro x; cases x
+  | none => rw [he] at h; obtain ⟨r, h⟩ := h; rw [h]; intro x; cases x
+
+
+/-! ## Subscripts of values -/
+
+theorem item_lookup {α β : Type} (key : Val α) (i : Int) (xs : List β) (f : β → Item α) (hk : valI64 key = some i) :
+    (match indexOf key (some xs.length) with
+     | some idx => (xs[idx]?).map f
+     | Option.none => Option.none) = (PySlice.index xs.length i).bind (fun j => (xs[j]?).map f) := by
+  have h := indexOf_bind key i xs hk
+  rw [index_eq_python] at h
+  have h2 : (PySlice.index xs.length i).bind (fun j => (xs[j]?).map f) =
+      ((PySlice.index xs.length i).bind (xs[·]?)).map f := by
+    cases PySlice.index xs.length i <;> rfl
+  rw [h2, ← h]
+  cases indexOf key (some xs.length) <;> rfl
+
+/-- a key that `as_i64` accepts (integers and booleans in the `i64` range, integral floats):
+    `v[key]` is Python's `v[i]`; out of range is undefined (never an error, never a panic).
+    A one-shot iterator answers an index relative to its end with undefined (engine rule: it had
+    to be drained to be counted; Python's generators cannot be subscripted at all). -/
+theorem getItemOpt_of_i64 {α : Type} (v key : Val α) (s : PySeq α) (i : Int)
+    (hv : pyView v = some s) (hk : valI64 key = some i) :
+    getItemOpt v key = if isOnce v && decide (i < 0) then Option.none else s.index i := by
+  cases v with
+  | str r bs =>
+    simp only [pyView, Option.some.injEq] at hv; subst hv
+    have hfn : MJ.Gen.c09GetItemLenFn.lookup (Val.str r bs : Val α).repr = some "chars" := by
+      cases r <;> simp only [Val.repr] <;> first | exact lenFn_string | exact lenFn_smallstr
+    simp only [getItemOpt, hfn, lenBy_chars, isOnce, Bool.false_and, Bool.false_eq_true, if_false]
+    exact item_lookup key i (chars bs) Item.chr hk
+  | bytes bs =>
+    simp only [pyView, Option.some.injEq] at hv; subst hv
+    simp only [getItemOpt, Val.repr, lenFn_bytes, lenBy_bytes, isOnce, Bool.false_and, Bool.false_eq_true, if_false]
+    exact item_lookup key i bs Item.byte hk
+  | tuple xs =>
+    simp only [pyView, Option.some.injEq] at hv; subst hv
+    simp only [getItemOpt, obj_seq, if_true, isOnce, Bool.false_and, Bool.false_eq_true, if_false]
+    show _ = (PySlice.index xs.length i).bind (fun j => (xs[j]?).map Item.elem)
+    rw [← item_lookup key i xs Item.elem hk]
+    cases hi : indexOf key (some xs.length) with
+    | none => simp only [vecGet, indexOf_neg_of_none key i _ hk hi]; rfl
+    | some idx => rfl
+  | seq xs =>
+    simp only [pyView, Option.some.injEq] at hv; subst hv
+    simp only [getItemOpt, obj_seq, if_true, isOnce, Bool.false_and, Bool.false_eq_true, if_false]
+    show _ = (PySlice.index xs.length i).bind (fun j => (xs[j]?).map Item.elem)
+    rw [← item_lookup key i xs Item.elem hk]
+    cases hi : indexOf key (some xs.length) with
+    | none => simp only [vecGet, indexOf_neg_of_none key i _ hk hi]; rfl
+    | some idx => rfl
+  | iter sized xs =>
+    simp only [pyView, Option.some.injEq] at hv; subst hv
+    simp only [getItemOpt, obj_iter, if_true, isOnce, Bool.false_and, Bool.false_eq_true, if_false]
+    exact item_lookup key i xs Item.elem hk
+  | once xs =>
+    simp only [pyView, Option.some.injEq] at hv; subst hv
+    simp only [getItemOpt, obj_iter, if_true, hk, isOnce, Bool.true_and, decide_eq_true_eq]
+    by_cases hneg : i < 0
+    · simp only [hneg, if_true]
+    · simp only [hneg, if_false, PySeq.index, PySeq.len, PySlice.index]
+      by_cases hlt : i < xs.length
+      · rw [if_pos ⟨by omega, hlt⟩]; simp [PySeq.itemAt]
+      · rw [if_neg (by omega)]
+        have : xs[i.toNat]? = Option.none := List.getElem?_eq_none (by omega)
+        simp [this]
+  | _ => simp [pyView] at hv
+
+/-- a key `as_i64` rejects (integers beyond `i64`, fractional or non-finite floats, strings,
+    undefined, none, …) selects nothing from a sequence: the result is undefined — for the big
+    integers that is Python's IndexError, for the rest the engine's rule (Python: TypeError) -/
+theorem getItemOpt_not_i64 {α : Type} (v key : Val α) (s : PySeq α)
+    (hv : pyView v = some s) (hk : valI64 key = Option.none) (hl : s.len < 9223372036854775808) :
+    getItemOpt v key = Option.none := by
+  cases v with
+  | str r bs =>
+    cases hfn : MJ.Gen.c09GetItemLenFn.lookup (Val.str r bs : Val α).repr <;>
+      simp only [getItemOpt, hfn, indexOf_none key _ hk]
+  | bytes bs =>
+    cases hfn : MJ.Gen.c09GetItemLenFn.lookup (Val.bytes bs : Val α).repr <;>
+      simp only [getItemOpt, hfn, indexOf_none key _ hk]
+  | tuple xs =>
+    simp only [pyView, Option.some.injEq] at hv; subst hv
+    simp only [getItemOpt, obj_seq, if_true, indexOf_none key _ hk, vecGet]
+    cases hu : valUsize key with
+    | none => rfl
+    | some n =>
+      have := tryInt_usize_none_of_i64 key n hk hu
+      simp only [PySeq.len] at hl
+      simp only []
+      rw [List.getElem?_eq_none (by omega)]; rfl
+  | seq xs =>
+    simp only [pyView, Option.some.injEq] at hv; subst hv
+    simp only [getItemOpt, obj_seq, if_true, indexOf_none key _ hk, vecGet]
+    cases hu : valUsize key with
+    | none => rfl
+    | some n =>
+      have := tryInt_usize_none_of_i64 key n hk hu
+      simp only [PySeq.len] at hl
+      simp only []
+      rw [List.getElem?_eq_none (by omega)]; rfl
+  | iter sized xs => simp only [getItemOpt, obj_iter, if_true, indexOf_none key _ hk]
+  | once xs => simp only [getItemOpt, obj_iter, if_true, hk]
+  | _ => simp [pyView] at hv
+
+/-- Python integers of every representation and size as subscripts: Python's `s[i]`, IndexError =
+    undefined; nothing else can happen -/
+theorem getItemOpt_eq_python {α : Type} (v key : Val α) (s : PySeq α) (i : Int)
+    (hv : pyView v = some s) (hk : pyInt key = some i) (hl : s.len < 9223372036854775808)
+    (ho : isOnce v = true → 0 ≤ i) :
+    getItemOpt v key = s.index i := by
+  have hv64 : valI64 key = if i64Min ≤ i ∧ i ≤ i64Max then some i else Option.none := tryInt_of_pyInt _ _ key i hk
+  by_cases hr : i64Min ≤ i ∧ i ≤ i64Max
+  · rw [if_pos hr] at hv64
+    rw [getItemOpt_of_i64 v key s i hv hv64]
+    by_cases h1 : isOnce v = true
+    · have := ho h1
+      simp [h1, show ¬ i < 0 by omega]
+    · simp [h1]
+  · rw [if_neg hr] at hv64
+    rw [getItemOpt_not_i64 v key s hv hv64 hl]
+    simp only [PySeq.index, PySlice.index]
+    rw [if_neg (by unfold i64Min i64Max at hr; split <;> omega)]
+    rfl
+
+/-- maps (which Python's sequence rules do not cover): the key is looked up as it is — no
+    normalisation of negative integers, no positional access -/
+theorem getItemOpt_map {α : Type} (kvs : List (MKey × α)) (key : Val α) :
+    getItemOpt (.map kvs) key = (mapGet kvs key).map Item.elem := by
+  simp only [getItemOpt, obj_map, if_true]
+
+/-- values without items -/
+theorem getItemOpt_scalar {α : Type} (v key : Val α)
+    (h : v = .undef ∨ v = .none ∨ (∃ b, v = .bool b) ∨ (∃ n, v = .num n) ∨ v = .plain ∨ v = .invalid) :
+    getItemOpt v key = Option.none := by
+  rcases h with rfl | rfl | ⟨b, rfl⟩ | ⟨n, rfl⟩ | rfl | rfl <;> rfl
+
+/-! ## The VM arms and the undefined modes -/
+
+/-- `GetItem`/`GetAttr`: a found item is the result; a missing one is undefined, except that
+    subscripting an *undefined* value is an error in every mode but `Chainable` -/
+theorem vmGetItem_eq {α : Type} (m : Mode) (v key : Val α) :
+    vmGetItem m v key =
+      match getItemOpt v key with
+      | some it => .ok it
+      | Option.none => if v.isUndef && m != .chainable then .error undefinedErr else .ok .undef := by
+  unfold vmGetItem
+  cases getItemOpt v key with
+  | some it => rfl
+  | none => cases m <;> cases v.isUndef <;> rfl
+
+theorem vmGetAttr_eq {α : Type} (m : Mode) (v : Val α) (name : List UInt8) :
+    vmGetAttr m v name =
+      match getValueByStr v name with
+      | some it => .ok it
+      | Option.none => if v.isUndef && m != .chainable then .error undefinedErr else .ok .undef := by
+  unfold vmGetAttr
+  cases getValueByStr v name with
+  | some it => rfl
+  | none => cases m <;> cases v.isUndef <;> rfl
+
+/-- `Slice`: only `Strict` refuses to slice an undefined value; otherwise `ops::slice` decides
+    (undefined and none slice to the empty list once the parts convert and the step is not zero) -/
+theorem vmSlice_eq {α : Type} (m : Mode) (v a b c : Val α) :
+    vmSlice m v a b c =
+      if v.isUndef && m == .strict then .ok (.error undefinedErr) else sliceV v a b c := by
+  unfold vmSlice
+  cases m <;> cases v.isUndef <;> rfl
+
+theorem sliceV_undefined {α : Type} (v a b c : Val α) (hv : v = .undef ∨ v = .none)
+    (h : sliceErr? v a b c = Option.none) : sliceV v a b c = .ok (.ok (.seq [])) := by
+  unfold sliceErr? at h
+  unfold sliceV
+  cases ha : optBound a with
+  | error e => rw [ha] at h; cases h
+  | ok A =>
+  cases hb : optBound b with
+  | error e => rw [ha, hb] at h; cases h
+  | ok B =>
+  cases hc : optBound c with
+  | error e => rw [ha, hb, hc] at h; cases h
+  | ok C =>
+  rw [ha, hb, hc] at h
+  simp only [] at h ⊢
+  by_cases h0 : C.getD 1 = 0
+  · rw [if_pos h0] at h; cases h
+  · rw [if_neg h0]
+    rcases hv with rfl | rfl
+    · simp [sliceClass_undef]
+    · simp [sliceClass_none]
+
+/-- attribute syntax never indexes: a numeric string is not a position (`Value::get_attr("0")` on
+    a list is undefined), on maps it is the string key -/
+theorem getValueByStr_seq {α : Type} (xs : List α) (name : List UInt8) :
+    getValueByStr (Val.seq xs) name = Option.none ∧ getValueByStr (Val.tuple xs) name = Option.none := by
+  have : valUsize (Val.str .normal name : Val α) = Option.none := rfl
+  simp [getValueByStr, vecGet, this]
+
+/-- `Value::get_item` / `get_item_by_index` (no undefined mode involved) -/
+theorem getItem_eq {α : Type} (v key : Val α) :
+    getItem v key = if v.isUndef then .error undefinedErr else .ok ((getItemOpt v key).getD .undef) := by
+  cases v <;> rfl
+
+theorem getItemByIndex_eq_python {α : Type} (v : Val α) (s : PySeq α) (n : Nat)
+    (hv : pyView v = some s) (hl : s.len < 9223372036854775808) :
+    getItemByIndex v n = .ok ((s.itemAt n).getD .undef) := by
+  have hu : v.isUndef = false := by cases v <;> simp [pyView] at hv <;> rfl
+  unfold getItemByIndex
+  rw [getItem_eq, hu]
+  simp only [Bool.false_eq_true, if_false]
+  rw [getItemOpt_eq_python v _ s (n : Int) hv rfl hl (by intro; omega)]
+  simp only [PySeq.index, PySlice.index]
+  have hn : ¬ ((n : Int) < 0) := by omega
+  simp only [hn, if_false]
+  by_cases h : (n : Int) < s.len
+  · rw [if_pos ⟨by omega, h⟩]; simp
+  · rw [if_neg (by omega)]
+    have : s.itemAt n = Option.none := by
+      cases s <;> simp only [PySeq.itemAt, PySeq.len] at h ⊢ <;>
+        rw [List.getElem?_eq_none (by omega)] <;> rfl
+    rw [this]; rfl
+
+/-! ## Metamorphic relations at the specification level -/
+
+/-- `xs[::-1]` is `xs|reverse` -/
+theorem slice_rev {α : Type} (xs : List α) (hl : xs.length < 9223372036854775808) :
+    slice xs none none (some (-1)) = .ok (.ok xs.reverse) := by
+  rw [slice_eq_python α xs none none (some (-1)) trivial trivial (by simp [OptInI64, InI64]) hl]
+  simp only [show ¬ ((some (-1) : Option Int) = some 0) by simp, if_false, Option.getD_some]
+  congr 2
+  rw [indices_rev]
+  apply List.ext_getElem?
+  intro j
+  rw [pick_getElem? xs _ (by
+    intro i hi
+    simp only [List.mem_map, List.mem_range] at hi
+    obtain ⟨k, hk, rfl⟩ := hi
+    omega)]
+  by_cases hj : j < xs.length
+  · rw [List.getElem?_map, List.getElem?_range hj]
+    simp only [Option.map_some, Option.bind_some]
+    rw [List.getElem?_reverse hj]
+  · rw [List.getElem?_eq_none (by simpa using hj), List.getElem?_eq_none (by simpa using hj)]
+    rfl
+
+/-- `xs[0]` is `xs|first`, `xs[-1]` is `xs|last` -/
+theorem index_first_last {α : Type} (xs : List α) : index? xs 0 = xs.head? ∧ index? xs (-1) = xs.getLast? := by
+  constructor
+  · cases xs <;> simp [index?]
+  · unfold index?
+    simp only [show ((-1 : Int) < 0) by omega, if_true, show (-1 : Int).natAbs = 1 by rfl]
+    cases h : xs with
+    | nil => simp
+    | cons a t => rw [← h, if_pos (by rw [h]; simp), List.getLast?_eq_getElem?]
+
+/-- `xs[a:b:c]|length`: as many items as Python selects positions -/
+theorem slice_length {α : Type} (xs : List α) (start stop : Option Int) (step : Int)
+    (hs : OptInI64 start) (he : OptInI64 stop) (hp : InI64 step) (h0 : step ≠ 0)
+    (hl : xs.length < 9223372036854775808) :
+    (pick xs (PySlice.indices xs.length start stop step)).length = (PySlice.adjust xs.length start stop step).2 := by
+  have hb := indices_in_bounds xs.length start stop step hs he hp h0 hl
+  have : (pick xs (PySlice.indices xs.length start stop step)).length = (PySlice.indices xs.length start stop step).length := by
+    generalize PySlice.indices xs.length start stop step = is at hb
+    induction is with
+    | nil => rfl
+    | cons i t ih =>
+      have hi : i < xs.length := hb i (by simp)
+      simp only [pick, List.filterMap_cons, List.getElem?_eq_getElem hi, List.length_cons]
+      congr 1
+      exact ih (fun k hk => hb k (by simp [hk]))
+  rw [this]
+  simp [PySlice.indices]
+
+
+
+/-! ### strings are UTF-8 bytes; the engine's cursor-based code works on characters -/
+
+/-- every scalar value takes 1–4 bytes; the `Chars` cursor over the bytes of a string holding `cs`
+    visits exactly the character boundaries (offset of the `i`-th step = byte length of the first `i`
+    characters; the bytes before and after it are encodings of `cs.take i` / `cs.drop i`) and
+    decodes exactly `cs` — so `chars().count()`, `nth`, `skip`/`take`/`step_by` of the string arms
+    operate on scalar values, not bytes -/
+theorem str_chars_on_boundaries (cs : List Char) :
+    chars (encode cs) = cs ∧
+    (∀ c ∈ cs, 1 ≤ (String.utf8EncodeChar c).length ∧ (String.utf8EncodeChar c).length ≤ 4) ∧
+    cs.length ≤ (encode cs).length ∧
+    ∀ i, i < cs.length →
+      (charIndices (encode cs))[i]? = (cs[i]?).map (fun c => ((encode (cs.take i)).length, c)) ∧
+      (encode cs).take (encode (cs.take i)).length = encode (cs.take i) ∧
+      (encode cs).drop (encode (cs.take i)).length = encode (cs.drop i) :=
+  ⟨chars_encode cs, fun c _ => width_bounds c, byteLen_ge_charLen cs, fun i h => cursor_on_boundaries cs i h⟩
+
+/-- the Python view of a string value is its character list, whatever the representation -/
+theorem str_view {α : Type} (r : StrRepr) (cs : List Char) : pyView (Val.str r (encode cs) : Val α) = some (.str cs) := by
+  simp only [pyView, chars_encode]
+
+/-- bytes and characters differ: `"héllo"` has 5 characters in 6 bytes, and `s[-1]` is `'o'`
+    (counting from the character length; the byte length would select nothing) -/
+example : (encode ['h', 'é', 'l', 'l', 'o']).length = 6 ∧
+    (PySeq.str ['h', 'é', 'l', 'l', 'o'] : PySeq Nat).index (-1) = some (.chr 'o') := by decide
+
+/-! ### Non-vacuity of the value-level theorems -/
+
+/-- a safe string with multi-byte characters, an `i64` start, a `u128::MAX` stop and the step `true` -/
+example : ∃ r, sliceV (Val.str .safe (encode ['h', 'é', 'l', 'l', 'o']) : Val Nat) (.num (.i64 1))
+      (.num (.u128 340282366920938463463374607431768211455)) (.bool true) = .ok (.ok r) ∧
+    pyView r = some (.str ['é', 'l', 'l', 'o']) := by
+  have h := sliceV_eq_python Nat (Val.str .safe (encode ['h', 'é', 'l', 'l', 'o'])) (.num (.i64 1))
+    (.num (.u128 340282366920938463463374607431768211455)) (.bool true) (.str ['h', 'é', 'l', 'l', 'o'])
+    (some 1) (some 340282366920938463463374607431768211455) (some 1)
+    (by simp only [pyView, chars_encode]) rfl rfl rfl (by show i64Min ≤ 1 ∧ 1 ≤ i64Max; decide) trivial trivial (by decide)
+  rw [if_neg (by decide)] at h
+  obtain ⟨r, h1, h2⟩ := h
+  exact ⟨r, h1, by rw [h2]; decide⟩
+example : sliceErr? (Val.seq [1, 2, 3]) (Val.str .small [0x31]) (Val.none) (Val.none) =
+    some (convErr (Val.str .small [0x31] : Val Nat)) := by rfl   -- xs["1":]
+example : sliceErr? (Val.map [(MKey.int 1, 7)]) (Val.none : Val Nat) Val.none Val.none = some (unsliceableErr (Val.map [(MKey.int 1, 7)])) := by rfl
+example : getItemOpt (Val.map [(MKey.int (-1), 7), (MKey.int 1, 8)]) (Val.num (.i64 (-1)) : Val Nat) = some (.elem 7) := by decide
+example : getItemOpt (Val.seq [10, 11, 12]) (Val.num (.i128 (-1)) : Val Nat) = some (.elem 12) := by decide
+example : getItemOpt (Val.once [10, 11, 12]) (Val.num (.i64 (-1)) : Val Nat) = Option.none := by decide
+example : (vmGetItem .chainable Val.undef (Val.num (.i64 0)) : Except Err (Item Nat)) = .ok .undef := by rfl
+example : (vmGetItem .semiStrict Val.undef (Val.num (.i64 0)) : Except Err (Item Nat)) = .error undefinedErr := by rfl
+end Values
 
 /-! ## Non-vacuity: the hypotheses are met by ordinary inputs, and the statement has content. -/
 example : slice [10, 11, 12, 13, 14] (some 4) (some 0) (some (-1)) = .ok (.ok [14, 13, 12, 11]) := by decide
